@@ -145,7 +145,7 @@ def hat_product_integral(levels, indices, a, b):
 _ERR_CLASSES = {}
 
 
-def RandErr(seed, profile, dim, a=None, b=None):
+def RandErr(seed, profile, dim, a=None, b=None, scale=1.0):
     """Seeded ErrorCalculator: the refinement decisions of the real refine() loop are driven by these values."""
     if "RandErr" not in _ERR_CLASSES:
         from sparseSpACE.ErrorCalculator import (ErrorCalculator, ErrorCalculatorSingleDimVolumeGuided,
@@ -160,6 +160,7 @@ def RandErr(seed, profile, dim, a=None, b=None):
                 self.dim = dim
                 self.step = 0
                 self.calls = 0
+                self.scale = 1.0
                 self.a, self.b = a, b
                 self.real = ErrorCalculatorSingleDimVolumeGuided()
                 self.real_punished = ErrorCalculatorSingleDimVolumeGuidedPunishedDepth()
@@ -174,6 +175,10 @@ def RandErr(seed, profile, dim, a=None, b=None):
                 self.follow_steps = r.randint(1, 3)
 
             def calc_error(self, refine_object, norm, volume_weights=None):
+                # every selection rule is homogeneous in the error values: the same history at another magnitude (1e-12 .. 1e9)
+                return self.scale * self._value(refine_object, norm, volume_weights)
+
+            def _value(self, refine_object, norm, volume_weights=None):
                 self.calls += 1
                 p = self.profile
                 rng = self.rng
@@ -246,7 +251,9 @@ def RandErr(seed, profile, dim, a=None, b=None):
                 raise ValueError(p)
 
         _ERR_CLASSES["RandErr"] = _RandErr
-    return _ERR_CLASSES["RandErr"](seed, profile, dim, a, b)
+    e = _ERR_CLASSES["RandErr"](seed, profile, dim, a, b)
+    e.scale = scale
+    return e
 
 
 ERR_PROFILES = ["uniform", "sparse", "ties", "equal", "zeros", "single", "altdim", "hotspot", "real", "leaddim"]
